@@ -481,16 +481,38 @@ class Runner:
             name = op[1]
             self.counter += 1
             base = 1000.0 * self.counter
-            f = lambda track, i: base + i + 1
+            want = [base + i + 1 for i in range(n)]
+            if self.counter % 3 == 1:
+                # an algorithm that is not defined at every observation (a forward difference reads the next
+                # observation; the built-in speed / heading do the same): tracklib documents by its code that an
+                # IndexError raised by the algorithm writes NaN at that observation -- NaN is then what was last
+                # written there, whatever the name held before
+                def f(track, i):
+                    track.getObsList()[i + 1]
+                    return base + i + 1
+                want[n - 1] = float("nan")
+                self.ctx.cls("algorithm.undefined_at_an_observation")
+                if name in model:
+                    self.ctx.cls("algorithm.undefined_at_an_observation.over_an_existing_name")
+            elif self.counter % 3 == 2 and n >= 2:
+                def f(track, i):
+                    return [base + j + 1 for j in range(1, track.size() - 1)][i - 1 if i else n]
+                want[0] = want[n - 1] = float("nan")
+                want[1:n - 1] = [base + j + 1 for j in range(1, n - 1)]
+                self.ctx.cls("algorithm.undefined_at_an_observation")
+                if name in model:
+                    self.ctx.cls("algorithm.undefined_at_an_observation.over_an_existing_name")
+            else:
+                f = lambda track, i: base + i + 1
             if k == "set_fn":
                 def call():
                     tr[name] = f
             else:
                 call = lambda: tr.addAnalyticalFeature(f, name)
-                expect_return = [base + i + 1 for i in range(n)]
+                expect_return = list(want)
             if name not in model and name in self.deleted_names:
                 self.flags.add("delete_then_recreate")
-            model[name] = [base + i + 1 for i in range(n)]
+            model[name] = list(want)
             self.exact.add(name)
             status = "ok"
         elif k == "set_obs":
@@ -1030,7 +1052,7 @@ _FLOORS_EXTRA = {'monitors': {'decoy.unchanged': 50000, 'failed_expression.state
                               'anyop.returned_list_is_what_is_read': 3000,
                               'scale.table_consistent': 100},
                  'classes': {'shift_by_whole_turns': 500, 'expression_through_item_access': 2000, 'sibling_track': 1000,
-                             'less_usual_feature_names': 5000, 'zero_valued_write': 5000, 'expression_of_more_than_100_operations': 6}}
+                             'less_usual_feature_names': 5000, 'zero_valued_write': 5000, 'algorithm.undefined_at_an_observation.over_an_existing_name': 800, 'expression_of_more_than_100_operations': 6}}
 
 
 def floors(tier):
